@@ -39,6 +39,7 @@ class Feed:
         self.findings = []
         self.flags = {}
         self.pure_lib = set()
+        self.explicit_roots = set()  # structures into which an operation with an explicit relation was added
         self.user_ops = set()
         self.probes = {}
         self.leaf_entries = {}
@@ -95,6 +96,8 @@ class Feed:
             self.leaf_entries.setdefault(owner, []).append(len(M.entries[name]) - 1)
             self.user_ops.add(id(M.roots[name]))
             self.touch(name, i)
+            if st.get("rel"):
+                self.explicit_roots.add(id(M.roots[name]))
             if st.get("rel") and st["rel"][0] == "JOINED_END":
                 self.probe("joined-end")
         elif op == "ADD_OP_IN":
@@ -137,6 +140,8 @@ class Feed:
                     self.probe("placement-tie")
             self.flags[name] |= {"copy"} | self.flags.get(child, set())
             self.last_sub[name] = (i, child, len(M.entries[name]) - 1)
+            if id(M.roots[child]) in self.explicit_roots:
+                self.explicit_roots.add(id(M.roots[name]))
             if child in M.ambiguous:
                 M.ambiguous.add(name)
             self.user_ops.add(id(M.roots[name]))
@@ -157,6 +162,8 @@ class Feed:
             self.flags[st["as"]] = set(self.flags.get(st["c"], set())) | {"copy"}
             self.leaf_entries[st["as"]] = []
             self.born[st["as"]] = ("COPY", i, st["c"])
+            if id(M.roots[st["c"]]) in self.explicit_roots:
+                self.explicit_roots.add(id(M.roots[st["as"]]))
             self.touch(st["as"], i)
             if id(M.roots[st["c"]]) in self.pure_lib:
                 self.pure_lib.add(id(M.roots[st["as"]]))
@@ -362,6 +369,10 @@ def evaluate_point(desc, i, ansP, stats):
     findings.extend(oracles.c07(full, in_scope, applied))
     if id(root) in feed.pure_lib and id(root) not in feed.user_ops and applied:
         findings.extend(oracles.c07_monotone(full, True))
+    elif applied and in_scope and "lib" not in flags and id(root) not in feed.explicit_roots and oracles.overlap_free(full):
+        # implicitly sequenced and free of channel overlaps (certified on the observation itself)
+        findings.extend(oracles.c07_monotone(full, True))
+        stats["acq_monotone_points"] = stats.get("acq_monotone_points", 0) + 1
     # exports
     findings.extend(oracles.c08(full))
     findings.extend(oracles.c15(full))
